@@ -18,13 +18,14 @@ META = {
         'bijection: each cipher suite the client hello parser folds into a boolean is not also kept in the list, and compose '
         'emits it exactly when the boolean is set.'
         ' R4: optional fields keep None through their converter. R5: tabulated name[=value] composers. R6: URLs are rebuilt from all their parts.'),
-    'assumptions': ['equality after the second parse for all accepted spellings (naive vs aware datetimes, URL normalisation, '
-                    'base64 canonical form, float formatting) is not decided'],
+    'assumptions': ['equality after the second parse for all accepted spellings (URL normalisation, base64 canonical form, float formatting) is not decided '
+                    'beyond the tabulated families (text dates, JSON seconds, IDNA names, DNSKEY key fields)', 'the model of dateutil.parser.parse covers the spellings of the table only'],
     'trusted_base': ['python ast', 'sa.compare (C01 layouts)'],
     'exhaustive': True,
 }
 
 META['explanation'] += ' ' + "R7: TXT chunking (see C01.R8). R8: the SPF network composer evaluated for both address families (prefix omitted only at the family's maximum). R9: compose has no effect on the object (effect analysis of C13.R1 restricted to compose)."
+META['explanation'] += ' ' + 'R10: timestamp / flag primitives (C11.R4/R5). R11: parse_date_time and every function printing a date with a literal zone evaluated over date texts with a model of dateutil (naive / aware / offset / fraction / end of calendar). R12: convert / _get_value_as_simple_type of the component kinds that change type, on JSON numbers. R13: DNSKEY RSA and DSA key fields as parse-compose-parse pipelines. R1 acceptance: DNS names and SNI host names evaluated with the real idna codec - accepted means composable.'
 
 ZONE_LITERALS = ('GMT', 'UTC', "Z'", '+0000', '+00:00')
 
